@@ -244,6 +244,9 @@ def obj_strategy(tier: str):
         'muts': st.lists(mutation_strategy(), min_size=1, max_size=8),
         # outputs carry their own pickle state, so the copy module and pickle are further ways of copying one
         'how': st.sampled_from(['method', 'method', 'copy.copy', 'copy.deepcopy', 'pickle']),
+        # the optional id-mapping dict of copy() (side_mapping / group_mapping): None = not passed, 0 = a fresh dict,
+        # n > 0 = a dict that n earlier copies of the same object have already filled
+        'mapping': st.sampled_from([None, None, 0, 1, 2]),
     })
 
 
@@ -462,9 +465,21 @@ def collapse_copy(vis, as_param: bool):
     return new[len(new) - len(vis.vmf.vis_tree) + pos], target
 
 
-def do_copy(kind, obj, other, how='method'):
+def do_copy(kind, obj, other, how='method', mapping=None):
     if kind == 'output' and how != 'method':
         return copy_via(obj, how)
+    if mapping is not None and kind in ('entity', 'solid', 'side', 'visgroup'):
+        # the same mapping dict handed to several copy() calls; the last copy is the one that is judged
+        shared: dict = {}
+        result = None
+        for _ in range(mapping + 1):
+            if kind == 'visgroup':
+                result = obj.copy(other, shared) if other is not None else obj.copy(group_mapping=shared)
+            elif other is not None:
+                result = obj.copy(vmf_file=other, side_mapping=shared)
+            else:
+                result = obj.copy(side_mapping=shared)
+        return result
     if kind == 'entity':
         return obj.copy(vmf_file=other) if other is not None else obj.copy()
     if kind == 'solid':
@@ -492,7 +507,9 @@ def execute_vmf(desc, ctx):
         cp, other = collapse_copy(obj, how == 'collapse_param')
         ctx.label('visgroup_how:' + how)
     else:
-        cp = do_copy(kind, obj, other, how)
+        cp = do_copy(kind, obj, other, how, desc.get('mapping'))
+        if desc.get('mapping') is not None and kind in ('entity', 'solid', 'side', 'visgroup'):
+            ctx.label('mapping_dict:' + ('fresh' if desc['mapping'] == 0 else 'reused'))
     ctx.label('kind:' + kind, 'cross_map' if other is not None else 'same_map')
     if kind == 'output':
         ctx.label('output_how:' + how)
@@ -868,7 +885,8 @@ def execute_math(desc, ctx):
 SUBCHECKS = [
     Sub('vmf_copy', execute_vmf, strategy=obj_strategy, quick=2400, thorough=80000, floor=50, quick_shards=8,
         must_hit=('kind:entity', 'kind:solid', 'kind:side', 'kind:output', 'kind:visgroup', 'cross_map', 'has:disp',
-                  'has:multiblend', 'has:points', 'has:fixups', 'mut:vec', 'mut:disp_vertex', 'mut:allowed_vert', 'mut:fixup', 'mut:output')),
+                  'has:multiblend', 'has:points', 'has:fixups', 'mut:vec', 'mut:disp_vertex', 'mut:allowed_vert', 'mut:fixup', 'mut:output',
+                  'mapping_dict:reused', 'mapping_dict:fresh', 'output_how:pickle', 'output_how:copy.copy', 'visgroup_how:collapse_param')),
     Sub('kv_copy', execute_kv, strategy=kv_strategy, quick=2000, thorough=60000, floor=30,
         must_hit=('has:empty_block', 'mut:into_empty_block')),
     Sub('kv_operators', execute_kvop, strategy=kvop_strategy, quick=2000, thorough=60000, floor=50,
